@@ -202,7 +202,7 @@ func ErrClass(err error) string {
 		return "err:txfinished"
 	case strings.Contains(msg, "invalid UTF-8"):
 		return "err:protoutf8"
-	case strings.Contains(msg, "key required"):
+	case strings.Contains(msg, "key required"), strings.Contains(msg, "key being empty"):
 		return "err:keyrequired"
 	case strings.Contains(msg, physical.ErrKeyTooLarge), strings.Contains(msg, "key too large"):
 		return "err:keytoolarge"
@@ -308,8 +308,6 @@ func (g *gen) putOK(bottomKey string) bool {
 	switch g.kind {
 	case "file":
 		return strings.Contains(bottomKey, "..") || fileAdmissible(bottomKey)
-	case "raft":
-		return bottomKey != ""
 	}
 	return true
 }
@@ -1200,7 +1198,18 @@ func keySizeCase(out *vh.Out, tgt Target) {
 	}
 	r.list("big/")
 	r.page("big/", strings.Repeat("k", 32763), 5)
+	// the empty key: stored by the in-memory backends, refused (never proposed to the log) by raft
+	if g.putOK("") {
+		r.put("", []byte{7})
+		r.get("")
+		r.list("")
+	}
 	if tgt.Kind == "raft" {
+		r.begin(true)
+		r.put("", []byte{8})
+		r.put("txn/after-empty", []byte{9})
+		r.commit(true)
+		r.get("txn/after-empty")
 		r.begin(true)
 		for _, n := range []int{32768, 32769} {
 			k := "txn/" + strings.Repeat("t", n-4)
